@@ -471,11 +471,12 @@ impl<S: Syntax, D> SyntaxNode<S, D> {
         let _write = unsafe { self.data().child_locks.get_unchecked(index).write() };
         #[cfg(cstree_verif)]
         crate::verif::note(crate::verif::Note::SlotAccess { node: self.data.as_ptr() as usize, index, write: true });
-        // safety: we are the only writer and there are no readers as evidenced by the write lock
-        let slot = unsafe { &mut *self.data().children.get_unchecked(index).get() };
-        if slot.is_none() {
-            // we are first to initialize the child
-            *slot = Some(elem);
+        // safety: we are the only writer as evidenced by the write lock. A slot that is already filled may still
+        // be read through the references handed out by `read`, so we must not form a `&mut` to it.
+        let slot = unsafe { self.data().children.get_unchecked(index).get() };
+        if unsafe { (*slot).is_none() } {
+            // we are first to initialize the child: nobody can hold a reference into an empty slot
+            unsafe { *slot = Some(elem) };
             #[cfg(cstree_verif)]
             crate::verif::note(crate::verif::Note::Installed { node: self.data.as_ptr() as usize, index });
         } else {
